@@ -14,6 +14,8 @@ CLAIMS = {
  "C01": ("ledger", "model_checking", LEDGER_LEVEL, LEDGER_NOTE),
  "C02": ("ledger", "model_checking", LEDGER_LEVEL + "; the conservation invariant is checked modulo the TLA+ signature of known finding F10", LEDGER_NOTE),
  "C03": ("ledger", "model_checking", LEDGER_LEVEL, LEDGER_NOTE),
+ "C05": ("spice", "model_checking", "TLC checks for ALL operand tuples at scaled constants that the transcription of the Go Supply/Transfer algorithms (explicit wrap-around and carry) equals the reference semantics on unbounded integers (exact, atomic, canonical); the real functions are then run at the real constants on the boundary product of the quantifier and on seeded random operands and TLC judges every recorded result on limb-encoded numbers; non canonical amounts are offered to real ledgers at every ingress and judged with Ledger.tla",
+         "trusted: limb encoding in the driver, TLC; exhaustive only at scaled constants (Base 3..7, 2^64 -> 8/16)"),
  "C06": ("ledger", "model_checking", LEDGER_LEVEL + "; every recorded balance reply must be a member of the reference set computed by TLC from the recorded state", LEDGER_NOTE),
  "C07": ("ledger", "model_checking", LEDGER_LEVEL, LEDGER_NOTE),
  "C08": ("locks", "model_checking", "TLC checks WalkLocks.tla (Go RWMutex semantics, graph walker goroutine, consumer exits at every visit count, truncate's three walks, writers, DAG streaming) for deadlock freedom, no abandoned walker, no send on a closed channel and the liveness property that every operation returns; the lock driver then runs the real operations with cancellation at every visit count, every truncation cut depth, streaming against writers, and TLC judges the recorded observations (returned / walkers left / later operations complete)",
@@ -35,6 +37,8 @@ m = {"version": 1, "setup_cmd": "./check setup",
         {"name": "ledger", "path": "specs/Ledger.tla specs/LedgerMC.tla specs/LedgerTrace.tla harness/cmd/drive/ledger.go runner/ledger.py",
          "serves_properties": ["C01", "C02", "C03", "C06", "C07", "C09", "C10", "C13", "C14"],
          "kind_free_text": "explicit TLA+ specification of the accounting books; TLC bounded model checking; TLC-generated behaviours replayed on real AccountingBooks; TLC trace validation"},
+        {"name": "spice", "path": "specs/Spice.tla specs/SpiceMC.tla specs/SpiceTrace.tla harness/cmd/drive/spicedrv.go runner/spice.py",
+         "serves_properties": ["C05"], "kind_free_text": "TLA+ transcription of the currency arithmetic vs reference semantics, exhaustive at scaled constants; trace validation at real constants"},
         {"name": "locks", "path": "specs/WalkLocks.tla specs/WalkLocksMC.tla specs/WalkLocksTrace.tla harness/cmd/drive/locks.go runner/locks.py",
          "serves_properties": ["C08"], "kind_free_text": "explicit TLA+ specification of locks, walker goroutines and channels; TLC safety + liveness; real-code fault enumeration judged by TLC"}],
      "checks": [], "not_applicable": [], "notes": "see DESIGN.md; known findings in known_findings.json"}
